@@ -295,18 +295,29 @@ def chain_roles(prog: Program) -> Tuple[FuncInfo, FuncInfo, int, int]:
         raise AnalysisError("process_files_to_scan no longer returns one 2-tuple of flags")
     names = [elt.id if isinstance(elt, ast.Name) else None for elt in rets[0].elts]
     fixed_index = failed_index = None
+    # roles by how each flag is raised: the failure flag is set when a per-file status is False (a negative
+    # guard on a value that comes back from a call), the fixed flag when a per-file value is True
     for node in walk_local(driver.node):
-        if isinstance(node, ast.If):
-            body_calls = [dotted(c.func) or "" for s in node.body for c in ast.walk(s) if isinstance(c, ast.Call)]
-            body_sets = [t.id for s in node.body if isinstance(s, ast.Assign) and isinstance(s.value, ast.Constant) and s.value.value is True for t in s.targets if isinstance(t, ast.Name)]
-            if any(name.endswith("print_fix_message") for name in body_calls):
-                for name in body_sets:
-                    if name in names:
-                        fixed_index = names.index(name)
-            elif isinstance(node.test, ast.UnaryOp) and isinstance(node.test.op, ast.Not):
-                for name in body_sets:
-                    if name in names:
-                        failed_index = names.index(name)
+        if not (isinstance(node, ast.Assign) and isinstance(node.value, ast.Constant) and node.value.value is True):
+            continue
+        for target in node.targets:
+            if not (isinstance(target, ast.Name) and target.id in names):
+                continue
+            for test, polarity in guards_of(driver.node, node):
+                from_call = isinstance(test, ast.Call)
+                if isinstance(test, ast.Name):
+                    for other in walk_local(driver.node):
+                        if isinstance(other, ast.Assign):
+                            for tgt_top in other.targets:
+                                for tgt, value, _ in Program._unpack(tgt_top, other.value):
+                                    if isinstance(tgt, ast.Name) and tgt.id == test.id and value is not None and any(isinstance(sub, ast.Call) for sub in ast.walk(value)):
+                                        from_call = True
+                if not from_call:
+                    continue
+                if polarity:
+                    fixed_index = names.index(target.id)
+                else:
+                    failed_index = names.index(target.id)
     if fixed_index is None or failed_index is None or fixed_index == failed_index:
         raise AnalysisError("cannot derive the roles (fixed / failed) of the flags returned by process_files_to_scan")
     callers = prog.callers.get(driver.qualname, [])
@@ -330,10 +341,8 @@ def r18c(ctx: Context) -> None:
                 flag_names[norm(elts[failed_index])] = "failed"
     if len(flag_names) != 2:
         raise AnalysisError("chain function does not unpack the two flags of process_files_to_scan")
-    rets = returns_of(chain)
-    if len(rets) != 1 or not isinstance(rets[0], ast.Name):
-        raise AnalysisError("chain function does not return one result variable")
-    result_var = rets[0].id
+    if not returns_of(chain):
+        raise AnalysisError("chain function does not return a result")
     cfg = CFG(chain.node, raising=lambda n: False)
     from sa.util import enumerate_paths
 
@@ -343,6 +352,7 @@ def r18c(ctx: Context) -> None:
             continue
         facts: Dict[str, bool] = {}
         result: Optional[str] = None
+        bound: Dict[str, str] = {}  # local -> the result it holds at this point of the path
         driver_called = False
         for nid, label in path:
             node = cfg.nodes[nid]
@@ -357,12 +367,17 @@ def r18c(ctx: Context) -> None:
                     facts[text] = label == "true"
             elif node.kind == "stmt" and isinstance(node.ast_node, ast.Assign):
                 stmt = node.ast_node
-                if any(isinstance(t, ast.Name) and t.id == result_var for t in stmt.targets):
-                    result = enum_member(stmt.value, "ApplicationResult") or norm(stmt.value)
+                for target in stmt.targets:
+                    if isinstance(target, ast.Name):
+                        value = stmt.value
+                        bound[target.id] = bound.get(value.id, norm(value)) if isinstance(value, ast.Name) else (enum_member(value, "ApplicationResult") or norm(value))
                 if isinstance(stmt.value, ast.Call):
                     site = site_for(prog, chain, stmt.value)
                     if site and driver in site.targets:
                         driver_called = True
+            elif node.kind == "stmt" and isinstance(node.ast_node, ast.Return) and node.ast_node.value is not None:
+                value = node.ast_node.value
+                result = bound.get(value.id, norm(value)) if isinstance(value, ast.Name) else (enum_member(value, "ApplicationResult") or norm(value))
         if not driver_called:
             continue
         seen_paths += 1
